@@ -242,10 +242,18 @@ def gen_model(rng, p: Params | None = None) -> ir.Model:
     model = ir.Model(graph, ir_version=p["ir_version"], functions=functions, producer_name="verif")
     if p["metadata"]:
         model.metadata_props["mk"] = "mv"
-        graph.metadata_props["gk"] = "gv"
-        for n in b.all_nodes[:3]:
-            n.metadata_props["nk"] = "nv"
-            n.doc_string = "ndoc"
+        style = rng.randrange(4)  # which kinds of metadata are present varies: graph level, node level, doc strings only
+        if style != 1:
+            graph.metadata_props["gk"] = "gv"
+        for i_, n in enumerate(b.all_nodes[:4]):
+            if style == 1:
+                n.doc_string = "ndoc"  # doc strings only
+                continue
+            # metadata and doc string do not always come together
+            if i_ % 3 != 1:
+                n.metadata_props["nk"] = "nv"
+            if i_ % 3 != 2:
+                n.doc_string = "ndoc"
         for v in b.all_values[:3]:
             v.metadata_props["vk"] = "vv"
             v.doc_string = "vdoc"
